@@ -572,7 +572,8 @@ pub fn run(run: &Run) {
     // (f)
     {
         let case = json!({"kind": "pass-corpus", "seeds": seeds * 4});
-        run.watch(&case);
+        // Thousands of binary runs, each under its own deadline: not one watched case.
+        run.idle();
         let (vs, k) = check_pass_corpus(seeds * 4, &root.join("f"), &case);
         run.idle();
         run.eval(k);
@@ -582,7 +583,7 @@ pub fn run(run: &Run) {
     // (g)
     {
         let case = json!({"kind": "file-subsets"});
-        run.watch(&case);
+        run.idle();
         let (vs, k) = check_file_subsets(&root.join("g"), &case);
         run.idle();
         run.eval(k);
